@@ -14,6 +14,7 @@ mod c_prt;
 mod c_boxp;
 mod c_asm;
 mod c_time;
+mod c_year;
 
 use std::io::Write;
 
@@ -93,6 +94,7 @@ fn main() {
         "boxp" => if replay { replay_loop(&mut out, c_boxp::replay_line) } else { c_boxp::run(&opts, &mut out) },
         "asm" => if replay { replay_loop(&mut out, c_asm::replay_line) } else { c_asm::run(&opts, &mut out) },
         "time" => if replay { replay_loop(&mut out, c_time::replay_line) } else { c_time::run(&opts, &mut out) },
+        "year" => if replay { replay_loop(&mut out, c_year::replay_line) } else { c_year::run(&opts, &mut out) },
         "path-oracle" => c_path::oracle(&opts, &mut out),
         _ => {
             eprintln!("unknown component {}", comp);
